@@ -70,9 +70,24 @@ func (x *Exec) contractEnvAtEntry(st *State, fr *Frame, c *Contract) *specEnv {
 		env.vars[p.Name()] = fr.regs[p]
 	}
 	for i, fv := range fr.fn.FreeVars {
-		env.vars[fv.Name()] = fr.bind[i]
+		env.vars[fv.Name()] = x.freeVarValue(st, fr, i, fv)
 	}
 	return env
+}
+
+// freeVarValue: a contract of a function literal names a captured variable by its source name and means its value
+// (the binding itself is the address of the variable).
+func (x *Exec) freeVarValue(st *State, fr *Frame, i int, fv *ssa.FreeVar) (v Val) {
+	v = fr.bind[i]
+	defer func() {
+		if r := recover(); r != nil {
+			v = fr.bind[i]
+		}
+	}()
+	if pt, ok := fv.Type().(*types.Pointer); ok {
+		return x.load(st, fr.bind[i], pt.Elem())
+	}
+	return v
 }
 
 func (x *Exec) exitEnv(st *State, fr *Frame, c *Contract) *specEnv {
@@ -83,7 +98,18 @@ func (x *Exec) exitEnv(st *State, fr *Frame, c *Contract) *specEnv {
 	for _, p := range fr.fn.Params {
 		env.vars[p.Name()] = fr.regs[p]
 	}
-	env.oldVars = env.vars
+	env.oldVars = map[string]Val{}
+	for k, v := range env.vars {
+		env.oldVars[k] = v
+	}
+	for i, fv := range fr.fn.FreeVars {
+		if _, clash := env.vars[fv.Name()]; !clash {
+			env.vars[fv.Name()] = x.freeVarValue(st, fr, i, fv)
+			if i < len(fr.fvEntry) {
+				env.oldVars[fv.Name()] = fr.fvEntry[i]
+			}
+		}
+	}
 	return env
 }
 
@@ -157,6 +183,7 @@ func (x *Exec) checkEnsures(st *State, fr *Frame, res Val) {
 // checkFrame: every heap array that differs from its entry version may differ only at the references named by
 // the modifies clause (evaluated in the entry state), at freshly allocated references, and at nil.
 func (x *Exec) checkFrame(st *State, fr *Frame, c *Contract, at string) {
+	x.checkGhostFrame(st, fr, c, at)
 	if !c.HasMod || (c.NoFrame && len(c.FrameOnly) == 0) {
 		return // no frame claimed
 	}
@@ -271,6 +298,36 @@ func (x *Exec) checkFrame(st *State, fr *Frame, c *Contract, at string) {
 			ftags = c.FrameTags
 		}
 		x.oblige(st, fmt.Sprintf("%s/frame:%s", x.curFunc, k), "frame", ftags, goal, fr.fn.Pos(), k+" of pre-existing objects outside the modifies clause unchanged ("+at+")")
+	}
+}
+
+// checkGhostFrame: a ghost that the contract does not list under modifies has its entry value at every exit
+// (callers keep what they know about it across the call, so this must be proved - also for noframe functions).
+func (x *Exec) checkGhostFrame(st *State, fr *Frame, c *Contract, at string) {
+	if !c.HasMod || st.entry == nil {
+		return
+	}
+	listed := map[string]bool{}
+	for _, l := range c.Modifies {
+		if l == "*" {
+			return
+		}
+		if i := strings.Index(l, "["); i >= 0 {
+			l = l[:i]
+		}
+		listed[strings.TrimSpace(l)] = true
+	}
+	for _, g := range x.specs.Ghosts {
+		if listed[g.Name] {
+			continue
+		}
+		cur, ok := st.ghost[g.Name]
+		e0, ok0 := st.entry.ghost[g.Name]
+		if !ok || !ok0 || cur.S == e0.S {
+			continue
+		}
+		goal := Term{S: "(= " + cur.S + " " + e0.S + ")", Sort: sBool}
+		x.oblige(st, fmt.Sprintf("%s/frame:ghost:%s", x.curFunc, g.Name), "frame", nil, goal, fr.fn.Pos(), "ghost "+g.Name+" is not listed under modifies and keeps its entry value ("+at+")")
 	}
 }
 
